@@ -544,6 +544,13 @@ class ClockScheduler():
         self._entries[key] = clock_task
         self.queue.add(time, clock_task)
 
+    def retime(self, clock):
+        # A clock that changes its tempo or beats reference keeps its pending
+        # tasks at their beats (rt queues are in beats), update their seconds.
+        for (task_clock, _), clock_task in list(self._entries.items()):
+            if task_clock is clock:
+                self.queue.add(clock.beats2secs(clock_task.beats), clock_task)
+
     def reset(self):
         self.queue.clear()
         self._entries.clear()
@@ -554,6 +561,7 @@ class ClockTask():
         self.clock = clock
         self.task = task
         self.scheduler = scheduler
+        self.beats = beats
         scheduler.add(clock.beats2secs(beats), self)
 
     def _wakeup(self, time):
@@ -562,7 +570,8 @@ class ClockTask():
             beats = self.clock.secs2beats(time)
             delta = self.task.__awake__(self.clock)
             if isinstance(delta, (int, float)) and not isinstance(delta, bool):
-                self.scheduler.add(self.clock.beats2secs(beats + delta), self)
+                self.beats = beats + delta
+                self.scheduler.add(self.clock.beats2secs(self.beats), self)
         except stm.StopStream:
             pass
         except Exception:
@@ -967,7 +976,7 @@ class TempoClock(Clock, metaclass=MetaTempoClock):
         # en tempo_
         mdl.NotificationCenter.notify(self, 'tempo')
         if self.mode == _libsc3.main.NRT_MODE:
-            return
+            _libsc3.main._clock_scheduler.retime(self)
         else:
             with self._sched_cond:
                 self._sched_cond.notify()  # NOTE: is notify_one in C++.
@@ -996,7 +1005,7 @@ class TempoClock(Clock, metaclass=MetaTempoClock):
         # etempo_
         mdl.NotificationCenter.notify(self, 'tempo')
         if self.mode == _libsc3.main.NRT_MODE:
-            return
+            _libsc3.main._clock_scheduler.retime(self)
         else:
             with self._sched_cond:
                 self._sched_cond.notify()  # NOTE: is notify_one in C++.
@@ -1054,7 +1063,7 @@ class TempoClock(Clock, metaclass=MetaTempoClock):
         self._base_beats = value
         self._beat_dur = 1.0 / self._tempo
         if self.mode == _libsc3.main.NRT_MODE:
-            return
+            _libsc3.main._clock_scheduler.retime(self)
         else:
             with self._sched_cond:
                 self._sched_cond.notify()  # NOTE: is notify_one in C++
